@@ -85,6 +85,17 @@ func copyStates(rep *ReplicaTrace, h uint64, inSyncOnly bool) string {
 }
 
 func checkC01(tr *CycleTrace, rep *ReplicaTrace, r Reporter) {
+	// a shard the cycle itself asks to be removed (ordinal >= the accepted shard count request) is no shard
+	// of the replica after the cycle. Not judged when the count exceeds max-shard (the clamp to
+	// max-shard removes shards whatever they hold; C07 excludes that case too).
+	remaining := len(rep.Shards)
+	if int32(len(rep.Shards)) <= tr.Opt.MaxShard {
+		for _, x := range rep.Scale {
+			if !x.Err {
+				remaining = int(x.Value)
+			}
+		}
+	}
 	// (a) no orphan
 	for _, h := range sortedHashes(tr.Active) {
 		held := false
@@ -98,15 +109,22 @@ func checkC01(tr *CycleTrace, rep *ReplicaTrace, r Reporter) {
 		if !held {
 			continue
 		}
-		kept := false
-		for _, s := range rep.Shards {
+		kept, keptButRemoved := false, false
+		for i, s := range rep.Shards {
 			if s.InSync {
 				if _, ok := s.After()[h]; ok {
+					if i >= remaining {
+						keptButRemoved = true
+						continue
+					}
 					kept = true
 				}
 			}
 		}
-		if !kept {
+		if !kept && keptButRemoved {
+			r.Report("C01", "orphan-by-scale-request", "",
+				fmt.Sprintf("replica %s: active target %d was reported by an in-sync shard; after the cycle it is only in the list of shards that the cycle's own request for %d shards removes", rep.ID, h, remaining))
+		} else if !kept {
 			r.Report("C01", "orphan", "copies="+copyStates(rep, h, true),
 				fmt.Sprintf("replica %s: active target %d was reported by an in-sync shard but is in no in-sync shard's list after the cycle", rep.ID, h))
 		}
